@@ -309,6 +309,13 @@ class _Suppress:
         self.excs = excs
 
 
+class _MemoWrap:
+    """functools.lru_cache(...)(f) / functools.cache(f) applied as a call: f memoised by the interpreted __hash__/__eq__ of its arguments"""
+    def __init__(self, f):
+        self.f = f
+        self.memo = {}
+
+
 class _Partial:
     """functools.partial"""
     def __init__(self, f, args, kwargs):
@@ -378,7 +385,9 @@ class Interp:
         """forget every modelled functools cache (a cold library; used to isolate obligations from each other)"""
         for m in self.modules.values():
             for v in list(m.ns.values()):
-                if isinstance(v, Func) and getattr(v, "memo", None) is not None:
+                if isinstance(v, _MemoWrap):
+                    v.memo.clear()
+                elif isinstance(v, Func) and getattr(v, "memo", None) is not None:
                     v.memo.clear()
                 elif isinstance(v, ClassInfo):
                     for w in v.ns.values():
@@ -1055,6 +1064,13 @@ class Interp:
                 return r
             if attr in obj.f:
                 return obj.f[attr]
+            if cv is MISSING and attr in obj.memo:
+                return obj.memo[attr]          # written through obj.__dict__[...]
+            if cv is MISSING and attr == "__dict__":
+                if all((isinstance(c, ClassInfo) and ("__slots__" in c.ns or (c.dc or {}).get("slots"))) or
+                       (isinstance(c, External) and c.name in ("object", "Generic", "Protocol", "ABC")) for c in obj.cls.mro):
+                    raise PyRaise(BuiltinExcValue(EXC["AttributeError"], ("__dict__",)))
+                return obj.memo                # the instance dict: holds what is not a slot/field (cached_property values, ad-hoc attributes)
             if cv is MISSING:
                 if attr == "_hash" and self.is_absset(obj):
                     return lambda: ("set", frozenset(self.py_hash(v) for v in self.iterate(obj)))
@@ -1811,6 +1827,23 @@ class Interp:
             if n is not None and isinstance(o, AObj) and o.site is None:
                 o.site = (self.fstack[-1] if self.fstack else (m.name if m else "?"), n.lineno)
             return o
+        if isinstance(f, tuple) and f == ("deco", "lru_cache"):
+            # lru_cache(maxsize=...) -> decorator; lru_cache(fn) / cache(fn) -> memoised fn
+            if len(args) == 1 and not kwargs and self.b_callable(args[0]) and not isinstance(args[0], (int, bool, type(None))):
+                return _MemoWrap(args[0])
+            return lambda fn: _MemoWrap(fn)
+        if isinstance(f, _MemoWrap):
+            if not self.model_caches:
+                return self.call(f.f, args, kwargs, n, m)
+            keyargs = list(args) + [v for _, v in sorted(kwargs.items())]
+            hk = tuple(self.py_hash(a) for a in keyargs)
+            bucket = f.memo.setdefault(hk, [])
+            for kargs, val in bucket:
+                if len(kargs) == len(keyargs) and all(self.py_eq(x, y) for x, y in zip(kargs, keyargs)):
+                    return val
+            val = self.call(f.f, args, kwargs, n, m)
+            bucket.append((keyargs, val))
+            return val
         if isinstance(f, _Partial):
             kw = dict(f.kwargs)
             kw.update(kwargs)
@@ -1829,6 +1862,8 @@ class Interp:
             if r is MISSING:
                 raise PyRaise(BuiltinExcValue(EXC["TypeError"], ("not callable", f.cls.name)))
             return self.call_func(r, [f] + list(args), kwargs)
+        if f is self.builtins["object"] and not args and not kwargs:
+            return object()        # a fresh sentinel: only identity, truth and hashing are meaningful
         if isinstance(f, External):
             h = self.opaque_calls.get(f.name)
             if h is None and (f.name in EXC or f.name.endswith(("Error", "Exception", "Warning"))):
@@ -2301,7 +2336,9 @@ class Interp:
             return x.cls.lookup("__call__")[0] is not MISSING
         if isinstance(x, tuple) and x and x[0] in ("builtin", "pymethod"):
             return True
-        return isinstance(x, (Func, Bound, ClassInfo, _Partial)) or callable(x)
+        if isinstance(x, tuple) and x and x[0] == "lazy":
+            return True
+        return isinstance(x, (Func, Bound, ClassInfo, _Partial, _MemoWrap)) or callable(x)
 
     def b_id(self, x):
         return id(x)
